@@ -551,6 +551,8 @@ static var Table_Get(var self, var key) {
 }
 
 static void Table_Set(var self, var key, var val) {
+  struct Table* t = self;
+  if (t->nslots is 0) { Table_Rehash(t, Table_Ideal_Size(0)); }
   Table_Set_Move(self, key, val, false);
   Table_Resize_More(self);
 }
